@@ -174,6 +174,10 @@ from dask.core import toposort, getcycle, isdag
 def f(*a): pass
 # keys of the usual dask form (name, i), next to keys that are the ELEMENTS of such a tuple
 names = [("x", 0), "x", 0, ("x", 1)]
+import signal
+class TO(BaseException): pass
+def _alarm(*a): raise TO()
+signal.signal(signal.SIGALRM, _alarm)
 N = len(names)
 edges = [(a, b) for a in range(N) for b in range(N)]
 fails = []; cases = 0
@@ -203,10 +207,15 @@ for mask in range(2 ** len(edges)):
     for single in names:
         cases += 1
         R = reach(gn, single); cyc = has_cycle(gn, list(R))
+        signal.setitimer(signal.ITIMER_REAL, 5)
         try:
             c = getcycle(dsk, single); d = isdag(dsk, single)
+        except TO:
+            fails.append((repr(gn), repr(single), "does not terminate (5 s)")); continue
         except Exception as e:
             fails.append((repr(gn), repr(single), "getcycle raised %r" % (e,))); continue
+        finally:
+            signal.setitimer(signal.ITIMER_REAL, 0)
         ok = d == (not c) and bool(c) == cyc and (not c or (c[0] == c[-1] and all(c[i + 1] in gn[c[i]] for i in range(len(c) - 1)) and set(c) <= R))
         if not ok:
             fails.append((repr(gn), repr(single), "getcycle(single key %r) -> %r, isdag %r; a cycle is reachable: %r" % (single, c, d, cyc)))
